@@ -143,6 +143,21 @@ def one_dataset(obs, rng, conv, spec, workdir=None):
         one = obs.call('select_index', ems.select_index, nat)
         if not isinstance(one, Failed):
             check_selection(obs, model, one, kname, [n], None, 'select_index', 'select-index-values')
+        # the selector itself: dataset.isel(selector_for_index(native)) reads exactly that cell of every variable on the grid
+        selector = obs.call('selector_for_index', ems.selector_for_index, nat)
+        if not isinstance(selector, Failed):
+            obs.cls('selector_for_index')
+            for vname, var in model.variables.items():
+                if var.kind != kname:
+                    continue
+                picked = obs.call('variable.isel(selector_for_index)', lambda: ds[vname].isel(selector))
+                if isinstance(picked, Failed):
+                    continue
+                want = var.expected(var.canon, source)[..., n]
+                obs.expect(tuple(picked.dims) == var.extra_dims and nan_equal(picked.values, want),
+                           'isel(selector_for_index(native(n))) is the value stored at cell n, other dimensions intact',
+                           lambda: {'variable': vname, 'n': n, 'got_dims': picked.dims, 'want_dims': var.extra_dims, 'got': picked.values, 'want': want},
+                           mech='selector-values')
     # ---------------------------------------------------------------- a variable added AFTER the first selections
     # The dataset object is live: a variable assigned to it later is "a variable defined on the selected grid" as well.
     if rng.random() < 0.4:
